@@ -153,3 +153,53 @@ def gen_asi_tokens():
     out.append("Definition else_lookahead_skips_line_comment : bool := %s.\n" % ("true" if skips_line_comment else "false"))
     out.append("Definition else_lookahead_skips_block_comment : bool := %s.\n" % ("true" if skips_block_comment else "false"))
     return extract.write_if_changed("AsiTokens.v", "".join(out))
+
+
+@extract.register("ParserSets")
+def gen_parser_sets():
+    """Token sets of the expression parser: which kinds is_expression_start() lists (the decision
+    whether the next item of a value block is an expression), which kinds primary() accepts,
+    which kinds unary() consumes as prefix operators."""
+    tok = extract.rd("syntax/src/token.rs")
+    names = enum_variants(tok, "TokenKind")
+    atom = extract.rd("frontend/src/parser/expr/atom.rs")
+    body = extract.strip_comments(fn_body(atom, "is_expression_start"))
+    mm = re.search(r"matches!\s*\(\s*self\.peek\(\)\.kind\s*,(.*)\)", body, flags=re.S)
+    if not mm:
+        raise extract.ExtractError("is_expression_start is no longer a single matches!(self.peek().kind, ...)")
+    starts = re.findall(r"TokenKind::([A-Za-z0-9]+)", mm.group(1))
+    rest = re.sub(r"TokenKind::[A-Za-z0-9]+(\s*\(\s*_\s*\))?", "", mm.group(1))
+    if rest.replace("|", "").strip():
+        raise extract.ExtractError(f"is_expression_start has patterns this translator does not understand: {rest.strip()!r}")
+    prim = extract.strip_comments(fn_body(atom, "primary"))
+    m2 = re.search(r"match\s+token_kind\s*\{", prim)
+    if not m2:
+        raise extract.ExtractError("primary() no longer matches on token_kind")
+    arms = re.findall(r"^\s*TokenKind::([A-Za-z0-9]+)", prim[m2.end():], flags=re.M)
+    prims = []
+    for a in arms:
+        if a not in prims:
+            prims.append(a)
+    if "Int" not in prims or "Identifier" not in prims:
+        raise extract.ExtractError("cannot read the arms of primary()")
+    # prefix operators: every kind some function of unary.rs consumes with match_token (the file holds the
+    # unary-operator parser only; which helper function does it is free to change)
+    un = extract.strip_comments(extract.rd("frontend/src/parser/expr/unary.rs"))
+    prefix = []
+    for k in re.findall(r"self\.match_token\(\s*&TokenKind::([A-Za-z0-9]+)\s*\)", un):
+        if k not in prefix:
+            prefix.append(k)
+    if not prefix:
+        raise extract.ExtractError("cannot read the prefix operators of unary()")
+    for lst in (starts, prims, prefix):
+        for k in lst:
+            if k not in names:
+                raise extract.ExtractError(f"unknown token kind {k}")
+
+    def defn(nm, lst):
+        return (f"Definition {nm} (k : tkind) : bool :=\n  match k with\n  | " + " | ".join("T" + e for e in lst)
+                + " => true\n  | _ => false\n  end.\n\n")
+    out = [extract.HEADER.format(src="frontend/src/parser/expr/{atom,unary}.rs"),
+           "From Coq Require Import Bool.\nFrom Aelys Require Import Extracted.AsiTokens.\n\n",
+           defn("expr_start_listed", starts), defn("primary_accepts", prims), defn("prefix_operator", prefix)]
+    return extract.write_if_changed("ParserSets.v", "".join(out))
